@@ -9,13 +9,28 @@ from .. import nf, lib
 from .. import absint as ai
 from ..absint import Rat, Unsupported, UNK
 
+
+def _func(idx, qual):
+    """FuncInfo of `pkg.mod.Class.method`, looked up along the MRO when the class itself does not define it
+    (constructors / methods moved into a shared base class)."""
+    if idx.has_func(qual):
+        return idx.func(qual)
+    cq, _, name = qual.rpartition('.')
+    ci = idx.classes.get(cq)
+    if ci is not None:
+        f = idx.lookup(ci, name)
+        if f is not None and f.module.name.startswith('mitxgraders.') and f.cls is not None \
+                and f.cls.qualname != 'mitxgraders.baseclasses.ObjectWithSchema':
+            return f
+    return idx.func(qual)          # raises "anchor vanished"
+
 M = 'mitxgraders.matrixsampling.'
 SM = M + 'SquareMatrices'
 ARR = M + 'ArraySamplingSet'
 
 
 def _paths(idx, qual, **kw):
-    fi = idx.func(qual)
+    fi = _func(idx, qual)
     try:
         return fi, ai.sym_exec(idx, fi, **kw)
     except Unsupported as e:
@@ -353,7 +368,7 @@ def d3_matrices(ctx, idx):
     r = ctx.rule('D3.DRAW', "arrays are drawn with config['shape'], get an imaginary part iff complex, then symmetry, then normalisation; "
                  'gen_sample wraps in MathArray', floor=5)
     with r:
-        fi = idx.func(ARR + '.generate_sample')
+        fi = _func(idx, ARR + '.generate_sample')
         loop, tr = _retry_parts(fi)
         flat = []
         for s in loop.body:
@@ -419,7 +434,7 @@ def d3_matrices(ctx, idx):
             else:
                 r.violation(construct + ': entries', 'complex=%r yields %s entries: the complex flag is %s' % (
                     cx, mv.kind, 'ignored' if not cx or mv.kind == 'real' else 'not respected'), where, expected=want, found=mv.kind)
-        gs = idx.func(ARR + '.gen_sample')
+        gs = _func(idx, ARR + '.gen_sample')
         try:
             gp = ai.sym_exec(idx, gs)
         except Unsupported as e:
@@ -753,7 +768,7 @@ def d4_enum(ctx, idx):
 def d5_retry(ctx, idx):
     r = ctx.rule('D5.RETRY', 'the retry loop is bounded, retries only on Retry and raises when it gives up', floor=4)
     with r:
-        fi = idx.func(ARR + '.generate_sample')
+        fi = _func(idx, ARR + '.generate_sample')
         loop, tr = _retry_parts(fi)
         where = lib.loc(fi, loop)
         # bounded
